@@ -83,6 +83,25 @@ def build_history(case):
             desc["silent"] = False
             hist = [(p0, {"kind": "initial"}), (p1, desc)]
             prog = p1
+    if case["idx"] % 8 == 0:
+        # aimed: a function whose two parameters are bound by keyword by a caller has the names of those parameters
+        # exchanged (signature and body alike: the instructions stay the same)
+        nodes = prog["nodes"]
+        cands = [(u, t) for u in range(len(nodes)) for t in range(u + 1, len(nodes))
+                 if nodes[u]["kind"] == "memento" and nodes[u]["version"] is None and nodes[t]["kind"] in ("memento", "plain")
+                 and nodes[t]["mod"] == nodes[u]["mod"] and nodes[u]["mod"] in ("a", "b") and not nodes[t].get("prev")
+                 and nodes[t]["version"] is None and not nodes[t].get("guard")]
+        if cands:
+            u, t = rng.choice(cands)
+            nodes[t]["params"] = [["x", None], ["y", 1]]
+            nodes[t]["op"], nodes[t]["swap"] = "*", False
+            nodes[u]["calls"].append({"t": t, "form": "kw2"})
+            res = progs.apply_edit(rng, prog, "pswap", force_node=t)
+            if res is not None:
+                p1, desc = res
+                desc["silent"] = False
+                hist = [(prog, {"kind": "initial"}), (p1, desc)]
+                prog = p1
     if case["idx"] % 8 == 4:
         # aimed: a plain helper is the default value of a parameter of a memento function that does not name it anywhere
         # else; the helper's body is edited
